@@ -425,12 +425,23 @@ def h_py(cx, cfg):
         b = [cx.real("b%d" % i, 0) for i in range(n)]
         sa, sb = cx.real("sa", 0), cx.real("sb", 0)
         as_list = cx.flag("as_list")
-        A = list(a) if as_list else symnp.array(a)
-        B = list(b) if as_list else symnp.array(b)
+        strided = (not as_list) and cx.flag("strided")
+        if strided:
+            # every other element of a longer array: the wrappers must see the view's elements
+            pad = [cx.real("pad%d" % i, 0) for i in range(n)]
+            A = symnp.array([v for pr in zip(a, pad) for v in pr])[::2]
+            B = symnp.array([v for pr in zip(b, pad) for v in pr])[::2]
+        else:
+            A = list(a) if as_list else symnp.array(a)
+            B = list(b) if as_list else symnp.array(b)
         for kind, args, pairs in (("array,scalar", (A, sb), [(a[i], sb) for i in range(n)]),
                                   ("scalar,array", (sa, B), [(sa, b[i]) for i in range(n)]),
                                   ("array,array", (A, B), [(a[i], b[i]) for i in range(n)])):
-            r = f(*args)
+            try:
+                r = f(*args)
+            except cast.CError as e:
+                cx.fail("%s(%s) with %s input: %s" % (fam, kind, "strided" if strided else "contiguous", e))
+                return
             cells = r.tolist()
             cx.check("%s(%s) returns one value per element" % (fam, kind), len(cells) == n)
             for i in range(min(n, len(cells))):
@@ -538,6 +549,8 @@ def replay(cand):
 
     def physical(x, lo, hi, default):
         return x if (x is not None and lo <= x <= hi) else default
+    def bad_list(a, b):
+        return len(a) != len(b) or any(abs(float(x) - float(y)) > 1e-12 * max(1.0, abs(float(y))) for x, y in zip(a, b))
     x5, w5 = np.polynomial.legendre.leggauss(5)
     x10, w10 = np.polynomial.legendre.leggauss(10)
 
@@ -578,6 +591,34 @@ def replay(cand):
                 return 0.0
             return self.Da(zl, zs) * self.Da(0.0, zl) / self.Da(0.0, zs) * 4 * np.pi * 6.6743e-11 / 2.99792458e8 ** 2 * 1.98841e30 / 3.0856775814913673e16 * 1e6
 
+    if what == "py_ctor":
+        # the constructor's normalisation rules at the model's argument combination and at its neighbours
+        combos = []
+        base = dict(use_h=bool(mdl.get("use_h", False)), flat=bool(mdl.get("flat", True)), have_ok=bool(mdl.get("have_ok", False)),
+                    om=physical(mf("om", 0.3), 0.01, 3, 0.3), ol=physical(mf("ol", 0.6), -3, 3, 0.6), ok=physical(mf("ok", 0.0), -1, 1, 0.0),
+                    H0=physical(mf("H0", 70.0), 1, 1000, 70.0), h=physical(mf("h", 0.7), 0.01, 10, 0.7))
+        combos.append(base)
+        for flat_ in (True, False):
+            for have_ok_, ok_ in ((False, 0.0), (True, 0.0), (True, 0.1), (True, -0.2)):
+                for ol_ in (0.6, 0.7, 0.9):
+                    combos.append(dict(base, flat=flat_, have_ok=have_ok_, ok=ok_, om=0.3, ol=ol_))
+        for k in combos:
+            kw = dict(H0=k["H0"], flat=k["flat"], omega_m=k["om"], omega_l=k["ol"])
+            if k["use_h"]:
+                kw["h"] = k["h"]
+            if k["have_ok"]:
+                kw["omega_k"] = k["ok"]
+            c = cosmo.Cosmo(**kw)
+            want_flat = (k["ok"] == 0.0) if k["have_ok"] else True
+            want_ol = 1.0 - k["om"] if want_flat else k["ol"]
+            want_ok = 0.0 if want_flat else k["ok"]
+            wantH0 = 100.0 * k["h"] if k["use_h"] else k["H0"]
+            got = [float(bool(c.flat())), c.omega_m(), c.omega_l(), c.omega_k(), c.H0()]
+            if bad_list(got, [float(want_flat), k["om"], want_ol, want_ok, wantH0]):
+                return {"reproduced": True, "key": "parameters:normalisation",
+                        "what": "Cosmo(%s) reports flat/omega_m/omega_l/omega_k/H0 = %r, the documented rules give %r"
+                                % (", ".join("%s=%r" % kv for kv in sorted(kw.items())), got, [float(want_flat), k["om"], want_ol, want_ok, wantH0])}
+        return no
     # a battery of cosmologies: the model's own (when physical) and standard ones
     trials = []
     if what in ("clib", "wrap"):
